@@ -117,7 +117,7 @@ fn stage(i: &Input, c: &mut Case) -> Result<(), String> {
 pub const STAGES: &[Stage] = &[Stage { name: "subsets", f: stage }];
 
 pub fn run(rc: &mut RunCtx) {
-    rc.run_pt(STAGES[0], rc.pick(20_000, 500_000), (96, 400));
+    rc.run_pt(STAGES[0], rc.pick(80_000, 500_000), (96, 400));
     rc.require_label("subsets", "all_subsets", 200_000);
     rc.require_label("subsets", "depth3plus", 300_000);
     if !rc.quick() {
